@@ -182,6 +182,8 @@ def r2_consumers(ctx, chk, rule="C13.2"):
                                 seeded = True
                 if seeded:
                     chk.ok(rule, f.where(), "%s.%s: `%s` only seeds a MIN/MAX fold with the value at the first element (order-insensitive)" % (cls, m, show(t)))
+                elif is_const(t[2]) and t[2][1] in (0, -1) and _only_single_element(k, t):
+                    chk.ok(rule, f.where(), "%s.%s: `%s` is read only where the list has exactly one element (its only element, whatever the order)" % (cls, m, show(t)))
                 elif not _direct_in_result(k, t):
                     # the value at a fixed position goes into a call / a loop / a fold that is not brought to normal form here (the seed of
                     # `min([first, *keys])`, of a `reduce`, of a helper): whether the result depends on the order is not decided
@@ -251,6 +253,35 @@ def r34_opacity(ctx, chk, rule3="C13.3", rule4="C13.4"):
                         v4 += 1
                         chk.violation(rule4, f.where(), "%s.%s orders successor indices: `%s` - renumbering states changes the result" % (cls, m, show(t)),
                                       expected="indices only used as subscripts / in == tests", found=show(t), construct="%s.%s index ordering" % (cls, m))
+        # implicit ordering: max / min / sorted of TUPLES that carry the transition (or its label / its index) behind the value -
+        # when two values tie, Python goes on to compare the next component: the label alphabetically, the index numerically
+        for t in _terms(k):
+            carried = None
+            if t[0] == "call" and t[1] in ("max", "min", "sorted") and len(t[2]) == 1 and "key" not in dict(t[3]):
+                carried = t[2][0]
+            elif t[0] == "mcall" and t[2] == "sort" and not t[3] and "key" not in dict(t[4] if len(t) > 4 else ()):
+                carried = t[1]
+            if carried is None:
+                continue
+            le = k.listexpr(carried)
+            if le is None or le[0] != SELF_NEXT or le[2][0] != "tup" or len(le[2][1]) < 2:
+                continue
+            later = le[2][1][1:]
+            has_label = any(any(y in (("e",), ("p",)) for y in C02._sub(x)) for x in later)
+            has_index = any(any(y == ("t",) for y in C02._sub(x)) and not any(y[0] == "sf" for y in C02._sub(x)) for x in later)
+            if has_label and role in ("max", "min"):
+                n3 += 1
+                v3 += 1
+                chk.violation(rule3, f.where(), "%s.%s takes `%s` of tuples `%s`: when two successors tie on the first component the tuples are compared further, i.e. by the "
+                              "action label - which successor is followed on a tie depends on how the actions are named" % (cls, m, t[1] if t[0] == "call" else "sort", show(le[2])[:80]),
+                              expected="labels only compared for equality / membership (an explicit key, or a loop over the values)", found=show(t)[:120],
+                              construct="%s.%s implicit label ordering" % (cls, m))
+            elif has_index or has_label:
+                n4 += 1
+                v4 += 1
+                chk.violation(rule4, f.where(), "%s.%s takes `%s` of tuples `%s`: ties on the first component are decided by comparing the next one - the successor's index (or the "
+                              "probability) - so the result depends on how the states are numbered" % (cls, m, t[1] if t[0] == "call" else "sort", show(le[2])[:80]),
+                              expected="indices are opaque", found=show(t)[:120], construct="%s.%s implicit index ordering" % (cls, m))
         # arithmetic on a successor index
         for t in _terms(k):
             if t[0] in ("add", "mul") and any(_slots(k, x)[1] for x in t[1]):
@@ -401,6 +432,38 @@ def _canary(ctx, chk):
 
 def _under_state_index(t):
     return False
+
+
+def _only_single_element(k, t):
+    """Every occurrence of the positional term t lies in the returned value, on a path whose condition says that the successor
+    list has exactly one element."""
+    LEN = ("call", "len", (SELF_NEXT,), ())
+    ONE = (simp(("cmp", "==", LEN, C(1))),)
+    for L in k.sx.loops.values():
+        for u in list(L.init.values()) + list(L.update.values()) + list(L.filters or []) + ([L.elt] if L.elt is not None else []) + list(L.effects):
+            if any(y == t for y in C02._sub(u)):
+                return False
+    if any(y == t for e in k.sx.final.effects for y in C02._sub(e)):
+        return False
+    found = []
+
+    def walk(x, single):
+        if x == t:
+            found.append(single)
+            return
+        if not isinstance(x, tuple):
+            return
+        if x and x[0] == "ite" and len(x) == 4:
+            walk(x[1], single)
+            c = simp(x[1])
+            cs = c[1] if c[0] == "and" else (c,)
+            walk(x[2], single or any(y in ONE for y in cs))
+            walk(x[3], single)
+            return
+        for y in x:
+            walk(y, single)
+    walk(k.ret, False)
+    return bool(found) and all(found)
 
 
 def _direct_in_result(k, t):
